@@ -36,6 +36,18 @@ import textwrap
 from typing import Callable, Dict, List, Optional, Tuple
 
 
+# functions whose body left the supported subset but whose Coq TYPE is known (monadic functions of the polyhedra.py generators):
+# they are emitted as the typed stub `raise (Escape "TRANSLATOR-UNSUPPORTED")`, so the generated FILE still compiles and only the
+# obligations about that function (and about its callers) stop checking, instead of every obligation importing the file.  A stub
+# can make no obligation pass: each obligation states generated = hand model, and no hand model is that constant error.
+FUNCTION_STUBS = []      # (output file, "Class.method", message)
+
+
+def function_stub(outfile, qualname, ex):
+    FUNCTION_STUBS.append((outfile, qualname, str(ex)))
+    return '  raise (Escape "TRANSLATOR-UNSUPPORTED")'
+
+
 class Unsupported(Exception):
     pass
 
@@ -3424,5 +3436,8 @@ if __name__ == "__main__":
     print("changed:", ch)
     for name, msg in fails:
         print(f"TRANSLATOR-UNSUPPORTED[{name}]: {msg}")
+    for outfile, qual, msg in sorted(set(FUNCTION_STUBS)):
+        if outfile not in [n for n, _ in fails]:
+            print(f"TRANSLATOR-UNSUPPORTED[{outfile}:{qual}]: {msg} (this function only: emitted as a typed stub)")
     for a in ass:
         print("assumption:", a)
